@@ -154,6 +154,53 @@ def run(cx, rep):
                 tv = [unparen(p["value"]) for p in obj["properties"] if p["type"] == "KeyValueProperty" and tsast.prop_key(p["key"]) == "type"]
                 if tv and tv[0]["type"] == "StringLiteral":
                     rep.ob("C02.3", "%s/additionalProperties-on-object" % fname, tv[0]["value"] == "object", "additionalProperties on a non-object schema", mod.loc(obj))
+    # ---------------------------------------------------------------- C02.5
+    rep.rule("C02.5", "schemas of index signatures keep both the key and the value constraint")
+    for cname, c in sorted(fam.classes.items()):
+        if "indexedPropertiesParser" not in fam.all_fields(cname) or "schema" not in c.methods:
+            continue
+        fn = c.methods["schema"]["function"]
+        al = ts_common.local_aliases(fn)
+        IS = [k for k, v in al.items() if "indexedPropertiesParser.map(" in s(v).replace(" ", "")]
+        rep.ob("C02.5", "%s/index-schemas" % cname, len(IS) == 1, "%s.schema: could not find the per-index-signature schema list" % cname, mod.loc(fn))
+        if len(IS) != 1:
+            continue
+        isn = IS[0]
+        cb = [a for a in walk(al[isn]) if a["type"] in ("ArrowFunctionExpression", "FunctionExpression")]
+        okcb = False
+        if cb:
+            objs = [o for o in walk(cb[0]) if o["type"] == "ObjectExpression"]
+            cal = ts_common.local_aliases(cb[0])
+            for o in objs:
+                kv = {tsast.prop_key(p["key"]): p["value"] for p in o["properties"] if p["type"] == "KeyValueProperty"}
+                if "propertyNames" in kv and "additionalProperties" in kv:
+                    def from_(e, who):
+                        e = unparen(e)
+                        if e["type"] == "Identifier" and e["value"] in cal:
+                            e = unparen(cal[e["value"]])
+                        mc = method_call(e)
+                        return bool(mc) and mc[1] == "schema" and s(mc[0]) == who
+                    okcb = from_(kv["propertyNames"], "key") and from_(kv["additionalProperties"], "value")
+        rep.ob("C02.5", "%s/index-schema-shape" % cname, okcb, "each index signature must print {propertyNames: key.schema(ctx), additionalProperties: value.schema(ctx)}", mod.loc(fn))
+        n_ret = 0
+        for r in tsast.walk_no_nested_fn(fn["body"]):
+            if r["type"] != "ReturnStatement" or r.get("argument") is None:
+                continue
+            # returns taken only when there is no index signature, or when the value type is never (no key can be present)
+            skip = False
+            for i in walk(fn):
+                if i["type"] == "IfStatement" and any(x is r for x in walk(i["consequent"])):
+                    t = s(i["test"])
+                    if t in ("(%s.length===0)" % isn, "(%s.length==0)" % isn) or "instanceofNeverRuntype" in t.replace(" ", ""):
+                        skip = True
+            if skip:
+                continue
+            n_ret += 1
+            uses = any(x["type"] == "Identifier" and x["value"] == isn for x in walk(r["argument"]))
+            rep.ob("C02.5", "%s/return-keeps-index-schema" % cname, uses,
+                   "%s.schema returns `%s` for a type with an index signature without using the index-signature schemas: the key constraint (propertyNames) is lost, so documents with keys the validator rejects are valid against the schema" % (cname, s(r["argument"])[:80]),
+                   mod.loc(r), sample={"class": cname, "return": s(r["argument"])[:80]})
+        rep.floor("C02.5", "index-signature returns of %s.schema" % cname, n_ret, 2)
     # ---------------------------------------------------------------- C02.4
     rep.rule("C02.4", "every $ref has an ensured definition")
     n_ref = 0
@@ -170,6 +217,16 @@ def run(cx, rep):
                     if prev["type"] == "CallExpression" and prev["span"]["end"] <= call["span"]["start"]:
                         mc = method_call(prev)
                         if not mc:
+                            continue
+                        # the ensure step must lie on every path to the $ref: it may only be nested in the
+                        # definition-absent guard itself, never in a condition the $ref emission does not share
+                        cond_ok = True
+                        for i in walk(fn):
+                            if i["type"] in ("IfStatement", "ConditionalExpression") and any(x is prev for x in walk(i)) and not any(x is call for x in walk(i)):
+                                t = s(i["test"])
+                                if "hasDefinition(" not in t and "isDefinitionInProgress(" not in t:
+                                    cond_ok = False
+                        if not cond_ok:
                             continue
                         if mc[1] == "storeDefinition" and s(mc[2][0]) == name:
                             ok = True
